@@ -112,6 +112,14 @@ CHECKS.update({
             SYMNOTE + "Ranges of positive extent, pixel_size > 0.", "DESIGN.md §4 C12"),
 })
 
+CHECKS.update({
+    "C10": (True, "symbolic evaluation of the segment integrator with a symbolic exponent; sign analysis with branch "
+                  "refinement at every power site; degree typing with a symbolic exponent; site rules for sup-norm and wiring",
+            CLAUSE + "Decides NM-SIGN, NM-FORM (summand = integral of |line|^p in all three arms), NM-HOM (degree 1), NM-ARMS, "
+            "NM-SUP, NM-WIRE. Declines: triangle inequality, stability vs bottleneck, nearly flat segments.",
+            SYMNOTE + "Abscissae strictly increasing along a depth; p >= 1.", "DESIGN.md §4 C10"),
+})
+
 NOT_APPLICABLE = {
     "C05": "soundness of the mGH lower/upper bounds is a theorem about computed values for every graph pair and RNG "
            "draw; no ownership, ordering, wiring or algebraic-type argument implies it (DESIGN.md §6); nearby "
